@@ -9,6 +9,8 @@ Trusted semantics (T5/T7 in DESIGN.md):
 """
 from __future__ import annotations
 
+import datetime as _dtm
+
 import numpy as np
 import z3
 
@@ -561,14 +563,34 @@ def _empty(it, a, k):
     return NotImplemented
 
 
+NS = {"D": 86400 * 10**9, "h": 3600 * 10**9, "m": 60 * 10**9, "s": 10**9, "ms": 10**6, "us": 10**3, "ns": 1}
+NP_DT64 = z3.Function("np_datetime64_ns", ops.StrSort, z3.IntSort())  # np.datetime64(text) as ns since epoch
+
+
+def _time_unit(dtype):
+    """('M'|'m', unit) for a numpy datetime64/timedelta64 dtype request, else None"""
+    if dtype is None:
+        return None
+    try:
+        dt = np.dtype(dtype)
+    except TypeError:
+        return None
+    if dt.kind in "Mm":
+        return dt.kind, np.datetime_data(dt)[0]
+    return None
+
+
 class SymNdOpaque:
-    """np.array(list-like) that is only carried around (per-line metadata columns, sizes)"""
+    """np.array(list-like): a 1-d array given elementwise. `data` is the source sequence (SymSeq / FlatSeq / list
+    with symbolic leaves), `conv` maps a source element to the array element (time values are integers in ns)."""
 
     is_symbolic_value = True
 
-    def __init__(self, data, dtype):
+    def __init__(self, data, dtype, conv=None, scalar=False):
         self.data = data
         self.dtype_req = dtype
+        self.conv = conv
+        self.scalar = scalar
 
     def sym_isinstance(self, ts):
         return any(t in (np.ndarray, object) for t in ts)
@@ -576,13 +598,106 @@ class SymNdOpaque:
     def __deepcopy__(self, memo):
         return self
 
+    def elem(self, it, k):
+        if self.scalar:
+            v = self.data
+        elif isinstance(self.data, SymSeq):
+            v = self.data.at(k)
+        elif isinstance(self.data, (list, tuple)) and isinstance(k, int):
+            v = self.data[k]
+        elif hasattr(self.data, "sym_getitem"):
+            v = self.data.sym_getitem(it, k)
+        else:
+            raise Unsupported("element of opaque array at a symbolic index of a concrete list")
+        return self.conv(v) if self.conv else v
+
+    def length(self):
+        if self.scalar:
+            return None
+        if isinstance(self.data, SymSeq):
+            return self.data.length
+        if isinstance(self.data, (list, tuple)):
+            return len(self.data)
+        if isinstance(self.data, SymNdOpaque):
+            return self.data.length()
+        return getattr(self.data, "n", None)
+
+    def sym_method(self, it, name, a, k):
+        if name == "astype":
+            tu = _time_unit(a[0] if a else k.get("dtype"))
+            mine = _time_unit(self.dtype_req)
+            if tu and mine and tu[0] == mine[0] and NS[tu[1]] <= NS[mine[1]]:
+                return SymNdOpaque(self.data, a[0], self.conv, self.scalar)  # refinement of the unit: value kept
+            raise Unsupported(f"astype({a}) on symbolic array of dtype {self.dtype_req}")
+        if name == "tolist" and not a:
+            raise Unsupported("tolist of a symbolic array")
+        raise Unsupported(f"ndarray.{name} on opaque symbolic array")
+
+    def sym_binop(self, it, opname, other, swapped):
+        mine = _time_unit(self.dtype_req)
+        if isinstance(other, SymNdOpaque):
+            theirs = _time_unit(other.dtype_req)
+        elif isinstance(other, Sym) and other.pyt in ("dt64", "td64"):
+            theirs = ("M" if other.pyt == "dt64" else "m", "ns")
+        else:
+            theirs = None
+        if not (mine and theirs) or opname != "add":
+            raise Unsupported(f"{opname} on opaque symbolic arrays of dtype {self.dtype_req}")
+        kinds = {mine[0], theirs[0]}
+        if kinds == {"M"}:
+            raise TypeError("datetime64 + datetime64")
+        kind = "M" if "M" in kinds else "m"
+        unit = mine[1] if NS[mine[1]] <= NS[theirs[1]] else theirs[1]
+        dt = ("datetime64" if kind == "M" else "timedelta64") + f"[{unit}]"
+        pyt = "dt64" if kind == "M" else "td64"
+
+        def get(x, kk):
+            if isinstance(x, SymNdOpaque):
+                return x.elem(it, kk).term
+            return x.term
+
+        arrays = [x for x in (self, other) if isinstance(x, SymNdOpaque) and not x.scalar]
+        if not arrays:
+            return Sym(get(self, 0) + get(other, 0), pyt)
+        if len(arrays) == 2:
+            la, lb = as_int_term(arrays[0].length()), as_int_term(arrays[1].length())
+            if not it.path.entails(la == lb):
+                raise Unsupported("elementwise sum of arrays whose lengths are not provably equal")
+        me, ot = self, other
+        return SymNdOpaque(SymSeq(arrays[0].length(), lambda kk: Sym(get(me, kk) + get(ot, kk), pyt), list,
+                                  "elementwise sum"), dt)
+
+
+def _time_conv(kind, unit):
+    mult = NS[unit]
+
+    def conv(v):
+        if isinstance(v, Sym) and v.pyt in ("dt64", "td64"):
+            return v
+        if isinstance(v, Sym) and v.pyt is _dtm.datetime:
+            return Sym(v.term * 1000, "dt64")
+        if isinstance(v, Sym) and v.pyt is _dtm.timedelta:
+            return Sym(v.term * 1000, "td64")
+        if isinstance(v, _dtm.datetime):
+            return Sym(ops.dt_to_us(v) * 1000, "dt64")
+        if isinstance(v, Sym) and v.pyt is str and kind == "M":
+            return Sym(NP_DT64(v.term), "dt64")
+        if isinstance(v, (Sym, int)) and not isinstance(v, bool) and (not isinstance(v, Sym) or v.pyt is int):
+            return Sym(as_int_term(v) * mult, "dt64" if kind == "M" else "td64")
+        raise Unsupported(f"conversion of {v!r} to numpy time")
+
+    return conv
+
 
 @model(np.array, np.asarray)
 def _nparray(it, a, k):
     v = a[0]
+    dt = a[1] if len(a) > 1 else k.get("dtype")
+    tu = _time_unit(dt)
     if isinstance(v, (SymSeq, FlatSeq)) or (isinstance(v, list) and any(isinstance(x, (Sym, SymSeq)) for x in v)):
-        dt = a[1] if len(a) > 1 else k.get("dtype")
-        return SymNdOpaque(v, dt)
+        return SymNdOpaque(v, dt, _time_conv(*tu) if tu else None)
+    if isinstance(v, Sym) and tu:
+        return _time_conv(*tu)(v)
     if isinstance(v, (SymNd, SymNdOpaque)):
         return v
     return NotImplemented
@@ -593,6 +708,8 @@ def _opaque_attr(it, obj, name):
         if obj.dtype_req is None:
             raise Unsupported("dtype of an opaque symbolic array without explicit dtype")
         return np.dtype(obj.dtype_req)
+    if name in ("astype", "tolist"):
+        return BoundSymMethod(obj, name)
     raise Unsupported(f"attribute {name} of opaque symbolic array")
 
 
